@@ -1,8 +1,8 @@
 (* C13 — Mining rewards and lockups pay out exactly once, no earlier, no more.
-   Property theorems only.  Model: Model/C13.v   Lemmas: Proofs/C13.v, Proofs/C13_Redeem.v
+   Property theorems only.  Model: Model/C13.v   Lemmas: Proofs/C13.v, Proofs/C13_Redeem.v, Proofs/C13_Uncles.v, Proofs/C13_Reorg.v
    Generated data: Generated/C13Params.v (params.LockupByteToBlockDepth, multipliers, epoch length, ...). *)
 From Coq Require Import List NArith ZArith Bool.
-From GQ Require Import Lib.Key Lib.SMap Generated.C13Params Model.C13 Proofs.C13 Proofs.C13_Redeem.
+From GQ Require Import Lib.Key Lib.SMap Generated.C13Params Model.C13 Proofs.C13 Proofs.C13_Redeem Proofs.C13_Uncles Proofs.C13_Reorg.
 Import ListNotations.
 Import C13Params.
 Local Open Scope N_scope.
@@ -327,3 +327,122 @@ Proof. vm_compute. repeat split; reflexivity. Qed.
 
 Example reward_split_nonvacuous : split_prefork 1000 [3; 1; 0]%Z = [750; 250; 1]%Z.
 Proof. vm_compute. reflexivity. Qed.
+
+(* ================================================================== workshare inclusion
+   HeaderChain.VerifyUncles (model verify_uncles) and the reward-at-depth rule of the Process tail
+   (model upaid).  Chains are lists of blocks, NEWEST FIRST; each block is validated against the
+   chain below it.  Chain hypotheses: uwf = distinct block hashes + parent links, uroot = the parent of
+   the oldest block is not on the chain, ubinds / ubinds_blocks = a header hash determines the parent
+   hash inside it (their negation is a hash collision). *)
+
+(* the inclusion windows as they are in the source now: the proofs below use 3 <= depth <= 4 *)
+Theorem params_inclusion_window_sane :
+  ((3 =? workshares_inclusion_depth) && (workshares_inclusion_depth <=? new_workshares_inclusion_depth)
+   && (new_workshares_inclusion_depth <=? 4) && (max_workshare_count <=? new_max_workshare_count)
+   && (kawpow_fork_block <=? inclusion_depth_change_block) && (controller_kick_in_block <=? kawpow_fork_block)) = true.
+Proof. vm_compute. reflexivity. Qed.
+Print Assumptions params_inclusion_window_sane.
+
+(* inside one accepted block no share hash is listed twice, and the count limit of its fork holds *)
+Theorem share_unique_in_block : forall db b, verify_uncles db b = VOk -> NoDup (map s_id (b_uncles b)).
+Proof. exact share_unique_in_block_lemma. Qed.
+Print Assumptions share_unique_in_block.
+
+Theorem share_count_bounded : forall db b, verify_uncles db b = VOk ->
+  N.of_nat (length (b_uncles b)) <= u_maxcount (b_ptn b).
+Proof. exact share_count_bounded_lemma. Qed.
+Print Assumptions share_count_bounded.
+
+(* recency: an accepted share was mined on one of the last `depth` ancestors of the including block, so
+   number(share) <= number(block) < number(share) + depth.  This is the side condition that makes the
+   FINITE window of the duplicate check sufficient. *)
+Theorem share_recent : forall b rest, uwf (b :: rest) -> uroot (b :: rest) -> unumbered (b :: rest) ->
+  verify_uncles rest b = VOk ->
+  forall s, In s (b_uncles b) -> s_num s <= b_num b /\ b_num b < s_num s + N.of_nat (u_depth (b_ptn b)).
+Proof. exact share_recent_lemma. Qed.
+Print Assumptions share_recent.
+
+(* THE clause: along any chain whose blocks were each accepted by VerifyUncles, no share hash occurs in
+   two uncle lists (nor twice in one) - for every mix of inclusion depths along the chain *)
+Theorem share_included_once : forall c, uwf c -> uroot c -> uaccepted c -> ubinds c ->
+  NoDup (map s_id (ushares c)).
+Proof. exact share_included_once_lemma. Qed.
+Print Assumptions share_included_once.
+
+(* a listed share is never (the header of) a block of the chain that lists it *)
+Theorem share_is_no_chain_block : forall c, uwf c -> uroot c -> uaccepted c -> ubinds_blocks c ->
+  forall s bk, In s (ushares c) -> In bk c -> s_id s <> b_id bk.
+Proof. exact share_no_chain_block_lemma. Qed.
+Print Assumptions share_is_no_chain_block.
+
+(* ... and so rewarded at most once: over the whole chain the coinbase payments made for shares carry
+   pairwise distinct share hashes, as long as one inclusion depth is in force along the chain *)
+Theorem share_rewarded_once : forall c d, uwf c -> uroot c -> uaccepted c -> ubinds c -> unumbered c ->
+  (forall b, In b c -> u_depth (b_ptn b) = d) ->
+  NoDup (map s_id (upaid_all c)).
+Proof. exact share_rewarded_once_lemma. Qed.
+Print Assumptions share_rewarded_once.
+
+(* the constant-depth premise is necessary: the last depth-3 block (height n) and the first depth-4
+   block (height n+1) both pay the shares numbered n-3 *)
+Theorem share_rewarded_once_refuted_at_depth_change :
+  exists c, uwf c /\ uroot c /\ uaccepted c /\ ubinds c /\ unumbered c /\ ~ NoDup (map s_id (upaid_all c)).
+Proof. exact share_rewarded_once_refuted_lemma. Qed.
+Print Assumptions share_rewarded_once_refuted_at_depth_change.
+
+(* no less: a share listed on the chain is paid by the block `depth` above the share's number *)
+Theorem share_paid_when_due : forall pre b rest d, let c := pre ++ b :: rest in
+  uwf c -> uroot c -> uaccepted c -> unumbered c ->
+  (forall x, In x c -> u_depth (b_ptn x) = d) ->
+  forall s, In s (ushares (b :: rest)) -> b_num b = s_num s + N.of_nat d -> In s (upaid b rest).
+Proof. exact share_paid_when_due_lemma. Qed.
+Print Assumptions share_paid_when_due.
+
+Example share_included_once_nonvacuous :
+  verify_uncles ex_base ex_b6 = VOk /\
+  verify_uncles (ex_b6 :: ex_base) ex_b7_dup = VDup /\
+  verify_uncles (ex_b6 :: ex_base) ex_b7_fresh = VOk /\
+  uaccepted (ex_b7_fresh :: ex_b6 :: ex_base) /\
+  map s_id (ushares (ex_b7_fresh :: ex_b6 :: ex_base)) = [101; 102; 100] /\
+  (* re-listing from the grandparent, and from the oldest block of the window, is refused too *)
+  verify_uncles (mkBlk 7 6 7 300000 [] :: ex_b6 :: ex_base) (mkBlk 8 7 8 300000 [ex_share 100 5 6]) = VDup /\
+  verify_uncles (mkBlk 8 7 8 300000 [] :: mkBlk 7 6 7 300000 [] :: ex_b6 :: ex_base) (mkBlk 9 8 9 300000 [ex_share 100 5 6]) = VDup /\
+  (* a block of the chain offered as a share, a share mined too long ago *)
+  verify_uncles (ex_b6 :: ex_base) (mkBlk 7 6 7 300000 [mkShare 5 4 5 300000 false [0] 0 true PBlock true]) = VAncestor /\
+  verify_uncles (ex_b6 :: ex_base) (mkBlk 7 6 7 300000 [ex_share 103 2 3]) = VDangling.
+Proof. vm_compute. repeat split; reflexivity. Qed.
+
+Example share_rewarded_once_nonvacuous :
+  map s_id (upaid (mkBlk 9 8 9 300000 []) [mkBlk 8 7 8 300000 []; mkBlk 7 6 7 300000 []; ex_b6; mkBlk 5 4 5 300000 []; mkBlk 4 3 4 300000 []]) = [100] /\
+  map s_id (upaid_all wit_chain) = [100; 100].
+Proof. vm_compute. repeat split; reflexivity. Qed.
+
+(* ================================================================== reorgs
+   collect L ops = the ledger after a block of operations and the undo records StateProcessor.Process
+   writes for it (created keys / replaced records); undo_block = what HeaderChain.SetCurrentHeader does
+   with them when the block is orphaned: put the replaced records back in reverse order, then delete
+   the created keys. *)
+
+(* orphaning a block of rewards (any number of rewards per tranche, new and existing tranches, delegate
+   changes) gives back EXACTLY the ledger before the block: no reward of an orphaned block stays
+   accumulated, nothing of the surviving chain is lost *)
+Theorem rollback_restores_rewards : forall ops L, Inv L -> Forall op_wf ops -> Forall no_claim ops ->
+  undo_block (snd (collect L ops)) (fst (collect L ops)) = L.
+Proof. exact rollback_restores_rewards_lemma. Qed.
+Print Assumptions rollback_restores_rewards.
+
+(* the two passes do not commute: with the created keys deleted first, the first reward of an orphaned
+   block that created a tranche and added to it again survives the rollback *)
+Theorem rollback_order_matters :
+  Forall op_wf rw_ops /\ Forall no_claim rw_ops /\
+  undo_block (snd (collect [] rw_ops)) (fst (collect [] rw_ops)) = [] /\
+  r_bal (read (undo_block_swapped (snd (collect [] rw_ops)) (fst (collect [] rw_ops))) (add_key (rw_add 100))) = 100%Z.
+Proof. exact rollback_order_matters_lemma. Qed.
+Print Assumptions rollback_order_matters.
+
+Example rollback_restores_nonvacuous :
+  snd (collect [] rw_ops) = [ECreated (add_key (rw_add 100)); EDeleted (add_key (rw_add 100)) (mkRec 100 200000 1 zero_addr)] /\
+  r_bal (read (fst (collect [] rw_ops)) (add_key (rw_add 100))) = 150%Z /\
+  run_case [] [(CPrim (OAdd (rw_add 100)), RAdd true false None (mkRec 100 200000 1 zero_addr)); (CBlockEnd, RNone);
+               (CRollback 1, RNone); (CPrim (OGet (a_owner (rw_add 1)) (a_miner (rw_add 1)) 0 1), RGet true empty_rec)] = true.
+Proof. vm_compute. repeat split; reflexivity. Qed.
